@@ -834,9 +834,29 @@ class EmitAnalysis:
                 fall = d
         return taken, fall
 
+    def _position_helpers(self) -> set:
+        """Methods that hand out the current bytecode position: no parameters, no emits, and every return gives
+        len(self.bytecode) or a local that was assigned it (a range check in between does not matter here)."""
+        got = getattr(self, "_pos_helpers", None)
+        if got is not None:
+            return got
+        out = set()
+        for name, m in self.methods.items():
+            if isinstance(m.node, ast.Lambda) or [p for p in m.params() if p != "self"] or _emits(m, self.methods, set()):
+                continue
+            rets = [r for r in m.own_nodes() if isinstance(r, ast.Return)]
+            if not rets:
+                continue
+            here = {t.id for a in m.own_nodes() if isinstance(a, ast.Assign) and norm(a.value) == "len(self.bytecode)" for t in a.targets if isinstance(t, ast.Name)}
+            multi = {t.id for a in m.own_nodes() if isinstance(a, ast.Assign) and norm(a.value) != "len(self.bytecode)" for t in a.targets if isinstance(t, ast.Name)}
+            if all(r.value is not None and (norm(r.value) == "len(self.bytecode)" or (isinstance(r.value, ast.Name) and r.value.id in here - multi)) for r in rets):
+                out.add(name)
+        self._pos_helpers = out
+        return out
+
     def _call(self, e: ast.Call, st: State) -> Any:
         fn = norm(e.func)
-        if fn == "len" and e.args and norm(e.args[0]) == "self.bytecode":
+        if (fn == "len" and e.args and norm(e.args[0]) == "self.bytecode") or (isinstance(e.func, ast.Attribute) and norm(e.func.value) == "self" and not e.args and not e.keywords and e.func.attr in self._position_helpers()):
             st.events.append(("label", e.lineno, len(st.events)))
             if not st.live:
                 # a position recorded after an unconditional jump: reachable only through jumps patched to it;
